@@ -12,7 +12,7 @@ func newUnit(prog *Program, cf *ContractFile, fi *FuncInfo, ct *Contract, inst *
 	u := &Unit{prog: prog, cf: cf, fn: fi, ct: ct, inst: inst, ctx: NewCtx(), mode: mode, theory: ct.Theory,
 		initMem: map[string]*Term{}, entry: map[string]Value{}, tvars: map[string]types.Type{}, roles: map[string]string{},
 		bdKnown: map[string]*Term{}, loopVar: map[int]types.Object{}, kernels: map[int]*Kernel{},
-		curTsub: inst.Map, hintsUsed: map[string]bool{}, headCounter: map[int]int{}, calls: map[string]bool{}, loopsSeen: map[int]bool{}, havocked: map[string]bool{}}
+		curTsub: inst.Map, hintsUsed: map[string]bool{}, headCounter: map[int]int{}, loopPre: map[int]*State{}, calls: map[string]bool{}, loopsSeen: map[int]bool{}, havocked: map[string]bool{}}
 	return u
 }
 
